@@ -30,6 +30,20 @@ class LiquidError(Exception):
     def __str__(self) -> str:
         return self.detailed_message()
 
+    def is_located_in(self, token: TokenT | None) -> bool:
+        """Return `False` if this error's token was scanned from other source text.
+
+        An error travels up through every template being rendered. The first
+        one to see it without a name used to put its own name on it, but the
+        error can carry a token of another template: an undefined variable
+        passed to a partial as an argument, `forloop.parentloop` in a partial
+        rendered with `for`, a macro defined elsewhere. Such an error is left
+        for the template that owns the token to name.
+        """
+        if self.token is None or token is None or self.token.start < 0:
+            return True
+        return self.token.source is token.source or self.token.source == token.source
+
     def detailed_message(self) -> str:
         """Return an error message formatted with extra context info."""
         if not self.token or self.token.start < 0:
